@@ -33,18 +33,33 @@ ENTRY_RX = [
     r"^<selium_protocol::bistream::ReadHalf as futures_core::stream::Stream>::poll_next$",
     r"^<selium_protocol::bistream::BiStream as futures_core::stream::Stream>::poll_next$",
 ]
+RECURSION_CRATES = ("selium_protocol", "selium_std", "selium")
 # encoders / senders reached from handle_request are not fed by network bytes
 STOP = ("encode", "compress", "send", "encode_message", "encode_request")
 
 
 def run(ctx):
     F = ctx.facts("quick")
-    entries = [F.one_body(rx) for rx in ENTRY_RX]
+    # (private per-message helpers may have been folded into their callers or moved onto a private sub-struct: the callers are
+    # entries themselves, so the region still covers their code)
+    OPTIONAL = ("decode_message", "decode_response")
+    entries = []
+    for rx in ENTRY_RX:
+        if any(rx.rstrip("$").endswith(o) for o in OPTIONAL) and not F.find_bodies(rx):
+            continue
+        entries.append(F.one_body(rx))
     for tr, m in (("selium_std::traits::codec::MessageDecoder", "decode"), ("selium_std::traits::compression::Decompress", "decompress")):
         ims = F.impls_of(tr)
         ctx.floor("C06.impls.%s" % m, len(ims), 3 if m == "decode" else 4)
         for im in ims:
             entries.append(F.body(im["items"][m]))
+    # hand-written serde visitors / Deserialize impls of wire types run inside bincode::deserialize on peer bytes
+    for im in F.impls:
+        if (im.get("trait") or "").startswith(("serde::de::Visitor", "serde::de::Deserialize", "serde::de::DeserializeSeed")) and not im.get("derived") and \
+                (im.get("self") or "").lstrip("<").startswith(("selium_protocol::", "selium_std::")):
+            for m_, path_ in sorted(im.get("items", {}).items()):
+                if path_ in F.bodies and F.bodies[path_] not in entries:
+                    entries.append(F.bodies[path_])
     stop = {p for p, b in F.bodies.items() if (b.name in STOP and ("selium_std::traits" in (b.impl_trait or "") or "Replier" in p or "Requestor" in p or "Publisher" in p))}
     region = F.region(entries, stop=stop)
     bodies = sorted(region.values(), key=lambda b: b.path)
@@ -54,6 +69,20 @@ def run(ctx):
         # derive-generated and logging formatting code is not fed by wire values
         return site.body.path in F.derived_bodies()
     sites = panics.analyse(ctx, bodies, "C06.no-panic", skip=skip, F=F)
+    # no decoding step may call itself once per frame / element of the input: the depth of such a recursion is chosen by the peer and
+    # ends in a stack overflow (an abort no caller can catch). Decided for the wire decoders and the client paths that consume what they produce.
+    rec = []
+    for b in bodies:
+        if b.crate not in RECURSION_CRATES:
+            continue
+        for c in b.calls():
+            if (c.t.get("resolved") or "") == b.path or (strip_generics(c.callee) == strip_generics(b.path) and c.t.get("callee_local")):
+                rec.append((b, c))
+    for b, c in rec:
+        ctx.fail("C06.no-recursion", "recursion:%s" % b.path.split("::")[-1].split(">")[0] + ":" + b.path.rsplit("::", 2)[-2][:40],
+                 "%s calls itself on input-dependent data: the peer chooses the recursion depth (stack overflow aborts the process)" % b.path, c.span)
+    if not rec:
+        ctx.ok("C06.no-recursion", "no self-recursive function among the %d decoder functions of %s" % (len([b for b in bodies if b.crate in RECURSION_CRATES]), "/".join(RECURSION_CRATES)))
     ctx.extra["region_functions"] = [b.path for b in bodies]
     ctx.extra["site_kinds"] = {}
     for s in sites:
